@@ -174,7 +174,6 @@ inductive TK where
   | inspect            -- `get_methods(LOCAL_ATTRS, obj)`
   | probeConn          -- `hasattr(obj, "____conn__")`
   | mkclass            -- `netref.class_factory(id_pack, methods)`
-  | countOp            -- `slot[1] < count; slot[1] -= count` with a count that is not an int
   | cleanup            -- `self._local_root.on_disconnect(self)`
   deriving DecidableEq, Repr, Inhabited
 
@@ -718,37 +717,26 @@ def hGetroot : List PV → M PV
   | [] => do let c ← getCtx; pure (.obj c.root)
   | _ => throwE .typeError
 
-/-- `if slot[1] < count: del self._dict[key] else: slot[1] -= count` for an integer count -/
-def decrefBy (key : Val) (cnt n : Int) : M PV := do
-  modify (fun st => { st with table := if cnt < n then tableRemove st.table key else tableSet st.table key (cnt - n) })
-  pure (.imm .none)
-
-/-- the same after the environment evaluated the comparison and subtraction on a count that is not an int -/
-def decrefOpaque (key : Val) (r : PV) : M PV :=
-  match r with
-  | .imm .none => do modify (fun st => { st with table := tableRemove st.table key }); pure (.imm .none)
-  | .imm (.int m) => do modify (fun st => { st with table := tableSet st.table key m }); pure (.imm .none)
-  | _ => throwE .notModelled
-
-/-- `RefCountingColl.decref(key, count)` -/
-def decref (key : Val) (count : PV) : M PV := do
+/-- `RefCountingColl.decref(key, n)`: `slot = self._dict[key]` (KeyError), then
+`if slot[1] < count: del self._dict[key] else: slot[1] -= count` -/
+def decref (key : Val) (n : Int) : M PV := do
   let st ← getSt
   match lookupSlot st.table key with
   | none => throwE .keyError
-  | some s =>
-    match count with
-    | .imm (.int n) => decrefBy key s.cnt n
-    | .imm (.bool b) => decrefBy key s.cnt (if b then 1 else 0)
-    | .imm (.float _) | .obj _ | .proxy _ _ _ => do
-      let r ← prim { kind := .countOp, subj := count, args := [.imm key] }
-      decrefOpaque key r
-    | _ => throwE .typeError
+  | some s => do
+    modify (fun st => { st with table := if s.cnt < n then tableRemove st.table key else tableSet st.table key (s.cnt - n) })
+    pure (.imm .none)
 
-def hDelCore (obj count : PV) : M PV := do
-  let k ← prim { kind := .idpack, subj := obj }
-  match k with
-  | .imm key => decref key count
-  | _ => throwE .notModelled
+/-- `_handle_del(obj, count)`: `if type(count) is not int: raise TypeError` (nothing but an exact int is ever compared
+or subtracted under the table's lock), then `get_id_pack(obj)` and `decref` -/
+def hDelCore (obj count : PV) : M PV :=
+  match count with
+  | .imm (.int n) => do
+    let k ← prim { kind := .idpack, subj := obj }
+    match k with
+    | .imm key => decref key n
+    | _ => throwE .notModelled
+  | _ => throwE .typeError
 
 def hDel : List PV → M PV
   | [o] => hDelCore o (.imm (.int 1))
@@ -782,9 +770,21 @@ def hCmp : List PV → M PV
   | [o, x, op] => hCmpCore o x op
   | _ => throwE .typeError
 
+/-- `type(x) is tuple` -/
+def PV.isTuple : PV → Bool
+  | .imm (.tuple _) => true
+  | .tup _ => true
+  | _ => false
+
+/-- `_handle_call(obj, args, kwargs)`: `if type(args) is not tuple or type(kwargs) is not tuple: raise TypeError`,
+then `obj(*args, **dict(kwargs))` -/
+def callChecked (o a kw : PV) : M PV :=
+  if a.isTuple && kw.isTuple then prim { kind := .call, subj := o, args := [a, kw] }
+  else throwE .typeError
+
 def hCall : List PV → M PV
-  | [o, a] => prim { kind := .call, subj := o, args := [a, .imm (.tuple [])] }
-  | [o, a, kw] => prim { kind := .call, subj := o, args := [a, kw] }
+  | [o, a] => callChecked o a (.imm (.tuple []))
+  | [o, a, kw] => callChecked o a kw
   | _ => throwE .typeError
 
 def hGetattr : List PV → M PV
@@ -801,7 +801,7 @@ def hSetattr : List PV → M PV
 
 def hCallattrCore (o n a kw : PV) : M PV := do
   let f ← accessAttr o n [] .get
-  prim { kind := .call, subj := f, args := [a, kw] }
+  callChecked f a kw
 
 def hCallattr : List PV → M PV
   | [o, n, a] => hCallattrCore o n a (.imm (.tuple []))
@@ -1146,12 +1146,12 @@ def modelledParams : List (String × List (String × Bool)) :=
 /-- the primitive touches of every handler body the model was transcribed from (compare `Gen.Handlers.handlerTouches`) -/
 def modelledTouches : List (String × List String) :=
   [("_handle_buffiter", ["itertools.islice", "tuple"]),
-   ("_handle_call", ["<call:var>", "<kwsplat>", "<splat>", "dict"]),
+   ("_handle_call", ["<call:var>", "<kwsplat>", "<splat>", "TypeError", "dict", "raise:TypeError", "type"]),
    ("_handle_callattr", ["self._handle_call", "self._handle_getattr"]),
    ("_handle_close", ["self._cleanup"]),
    ("_handle_cmp", ["<call:expr>", "raise", "self._access_attr", "type"]),
    ("_handle_ctxexit", ["<call:expr>", "raise:<var>", "self._handle_getattr", "sys.exc_info", "truth:<var>"]),
-   ("_handle_del", ["get_id_pack", "self._local_objects.decref"]),
+   ("_handle_del", ["TypeError", "get_id_pack", "raise:TypeError", "self._local_objects.decref", "type"]),
    ("_handle_delattr", ["self._access_attr"]),
    ("_handle_dir", ["dir", "tuple"]),
    ("_handle_getattr", ["self._access_attr"]),
